@@ -1,12 +1,12 @@
 /-
   Props.C09 — each built-in function returns the value its specification
   defines (DESIGN.md §7, C09).  Laws proved for the model's handlers (the
-  table wiring name → handler is `generated_sigs_ok`).  Where the law is the
-  handler's definition (abs, ceil, floor, type, join, …) there is no theorem:
-  the tie to the code is the correspondence stream `fn`.
+  table wiring name → handler is `generated_sigs_ok`); the tie of each handler
+  to the code is the correspondence stream `fn`.
 -/
 import Props.Tables
 import Proofs.FunctionsJson
+import Proofs.JsonValue
 namespace Jmes.Props
 open Jmes Jmes.Fn
 
@@ -335,5 +335,110 @@ theorem C09_avg (xs : List (Val N)) (ns : List N) (hn : allNums xs = some ns) (h
       exact ih r _ hr
   have he : xs.isEmpty = false := by cases xs <;> simp_all
   simp only [handle, Bool.false_eq_true, if_false, he, hloop xs ns _ hn, sumNums]
+
+/-! ### scalar functions, string predicates, conversions -/
+
+/-- `abs`, `ceil`, `floor` apply the corresponding operation of the number type. -/
+theorem C09_abs_ceil_floor (n : N) :
+    handle .abs false [.val (.num n)] = .ok (.num (NumOps.abs n)) ∧
+    handle .ceil false [.val (.num n)] = .ok (.num (NumOps.ceil n)) ∧
+    handle .floor false [.val (.num n)] = .ok (.num (NumOps.floor n)) := ⟨rfl, rfl, rfl⟩
+
+/-- `sum` adds the numbers from zero, left to right (so `sum([]) = 0`). -/
+theorem C09_sum (xs : List (Val N)) (ns : List N) (h : allNums xs = some ns) :
+    handle .sum false [.val (.arr xs)] = .ok (.num (ns.foldl NumOps.add (NumOps.ofNat 0))) := by
+  simp [handle, toArrayNum, h, sumNums]
+
+/-- `starts_with` / `ends_with` are the prefix / suffix relations on bytes. -/
+theorem C09_starts_ends_with (s p : Bytes) :
+    handle (N := N) .startsWith false [.val (.str s), .val (.str p)] = .ok (.bool (p.isPrefixOf s)) ∧
+    handle (N := N) .endsWith false [.val (.str s), .val (.str p)] = .ok (.bool (p.reverse.isPrefixOf s.reverse)) := ⟨rfl, rfl⟩
+
+theorem isInfix_iff (needle : Bytes) : ∀ hay : Bytes, isInfix needle hay = true ↔ ∃ pre post, hay = pre ++ needle ++ post
+  | [] => by
+    simp only [isInfix, List.isEmpty_iff]
+    constructor
+    · intro h; exact ⟨[], [], by simp [h]⟩
+    · rintro ⟨pre, post, h⟩
+      have := congrArg List.length h
+      simp at this
+      exact List.eq_nil_of_length_eq_zero (by omega)
+  | c :: rest => by
+    simp only [isInfix, Bool.or_eq_true, isInfix_iff needle rest]
+    constructor
+    · rintro (h | ⟨pre, post, h⟩)
+      · obtain ⟨t, ht⟩ := List.isPrefixOf_iff_prefix.mp h
+        exact ⟨[], t, by simp [ht]⟩
+      · exact ⟨c :: pre, post, by simp [h]⟩
+    · rintro ⟨pre, post, h⟩
+      cases pre with
+      | nil => left; exact List.isPrefixOf_iff_prefix.mpr ⟨post, by simpa using h.symm⟩
+      | cons x pre' =>
+        simp only [List.cons_append, List.cons.injEq] at h
+        right; exact ⟨pre', post, h.2⟩
+
+/-- `contains` on a string: the second string occurs in it; on an array: some element is deeply equal. -/
+theorem C09_contains (s e : Bytes) (xs : List (Val N)) (el : Val N) :
+    (handle (N := N) .contains false [.val (.str s), .val (.str e)] = .ok (.bool true) ↔ ∃ pre post, s = pre ++ e ++ post) ∧
+    handle .contains false [.val (.arr xs), .val el] = .ok (.bool (xs.any fun x => Val.deepEq x el)) := by
+  refine ⟨?_, rfl⟩
+  simp only [handle, Bool.false_eq_true, if_false, Res.ok.injEq, Val.bool.injEq]
+  exact isInfix_iff e s
+
+/-- `join` glues the strings with the separator between consecutive ones. -/
+theorem C09_join (sep : Bytes) (ss : List Bytes) :
+    handle (N := N) .join false [.val (.str sep), .val (.arr (ss.map .str))] = .ok (.str (Json.intercalate sep ss)) := by
+  have : ∀ l : List Bytes, joinLoop (N := N) sep (l.map .str) = .ok l := by
+    intro l; induction l with
+    | nil => rfl
+    | cons x xs ih => simp [joinLoop, ih]
+  simp [handle, this]
+
+/-- `type` names the JSON type. -/
+theorem C09_type (n : N) (s : Bytes) (xs : List (Val N)) (kvs : List (Bytes × Val N)) (bv : Bool) :
+    handle .type false [.val (.num n)] = .ok (str "number") ∧ handle (N := N) .type false [.val (.str s)] = .ok (str "string") ∧
+    handle .type false [.val (.arr xs)] = .ok (str "array") ∧ handle .type false [.val (.obj kvs)] = .ok (str "object") ∧
+    handle (N := N) .type false [.val .null] = .ok (str "null") ∧ handle (N := N) .type false [.val (.bool bv)] = .ok (str "boolean") :=
+  ⟨rfl, rfl, rfl, rfl, rfl, rfl⟩
+
+/-- `to_array` wraps a non-array in a one-element array and leaves arrays alone. -/
+theorem C09_to_array (xs : List (Val N)) (v : Val N) (hv : ∀ ys, v ≠ .arr ys) :
+    handle .toArray false [.val (.arr xs)] = .ok (.arr xs) ∧ handle .toArray false [.val v] = .ok (.arr [v]) := by
+  refine ⟨rfl, ?_⟩
+  cases v with
+  | arr ys => exact absurd rfl (hv ys)
+  | _ => rfl
+
+/-- `to_number`: a number is itself, a string is parsed (null when it is not a finite number), anything else is null. -/
+theorem C09_to_number (n : N) (s : Bytes) (v : Val N) (hv : (∀ m, v ≠ .num m) ∧ (∀ t, v ≠ .str t)) :
+    handle .toNumber false [.val (.num n)] = .ok (.num n) ∧
+    handle (N := N) .toNumber false [.val (.str s)] =
+      .ok (match (NumOps.parse s : Option N) with | some m => if NumOps.isFinite m then .num m else .null | none => .null) ∧
+    handle .toNumber false [.val v] = .ok .null := by
+  refine ⟨rfl, ?_, ?_⟩
+  · simp only [handle, Bool.false_eq_true, if_false]
+    cases (NumOps.parse s : Option N) with
+    | none => rfl
+    | some m => by_cases hf : NumOps.isFinite m = true <;> simp [hf]
+  · cases v with
+    | num m => exact absurd rfl (hv.1 m)
+    | str t => exact absurd rfl (hv.2 t)
+    | _ => rfl
+
+/-- `to_string`: a string is itself; any other value becomes its JSON text — which reads
+    back as the value (`decode (to_string v) = v`, given the number-text contract). -/
+theorem C09_to_string (s : Bytes) (v : Val N) (hv : ∀ t, v ≠ .str t) (hf : v.finite = true) :
+    handle (N := N) .toString false [.val (.str s)] = .ok (.str s) ∧
+    handle .toString false [.val v] = .ok (.str (Json.encode v)) := by
+  refine ⟨rfl, ?_⟩
+  cases v with
+  | str t => exact absurd rfl (hv t)
+  | _ => simp [handle, hf]
+
+open Jmes.Json in
+theorem C09_to_string_reads_back (hN : NumCodec N) (v : Val N) (hv : ∀ t, v ≠ .str t) (hf : v.finite = true)
+    (hok : okV v) (hd : depthV v ≤ maxDepth) :
+    ∃ txt, handle .toString false [.val v] = .ok (.str txt) ∧ (Json.decode txt : Option (Val N)) = some v :=
+  ⟨Json.encode v, (C09_to_string [] v hv hf).2, decode_encode hN v hok hd⟩
 
 end Jmes.Props
